@@ -128,6 +128,8 @@ Definition dec_rule (s : sx) : rule :=
                (sx_Z (sx_nth s 3))
   | 7 => RAtom (sx_Z (sx_nth s 1)) (sx_Z (sx_nth s 2))
   | 8 => REmpty (sx_Z (sx_nth s 1))
+  | 10 => REquivRevProduct (sx_Z (sx_nth s 1)) (sx_Z (sx_nth s 2))
+  | 11 => RPathNoCtor (sx_Z (sx_nth s 1)) (sx_Z (sx_nth s 2))
   | _ => RVerified (sx_Z (sx_nth s 1))
   end.
 
